@@ -243,17 +243,19 @@ def render_function(desc, name="train", ftype="static", inline_types=True, kwonl
 
 def _doc_lines(style, params, r, inline_types, ind):
     lines = []
-    if style == "rest":
+    if style in ("rest", "rest_compact"):
+        # rest_compact: no blank line between the fields (the layout of most hand-written ReST docstrings)
+        gap = [""] if style == "rest" else []
         for p in params:
             lines.append(ind + ":param %s: %s" % (p["name"], p.get("doc") or ""))
             if not inline_types and p["typ"]:
                 lines.append(ind + ":type %s: ```%s```" % (p["name"], p["typ"]))
-            lines.append("")
+            lines += gap
         if r:
             lines.append(ind + ":returns: %s" % (r.get("doc") or ""))
             if not inline_types and r.get("typ"):
                 lines.append(ind + ":rtype: ```%s```" % r["typ"])
-            lines.append("")
+            lines += gap
         if lines and lines[-1] == "":
             lines.pop()
     elif style == "google":
